@@ -9,12 +9,16 @@ package types
 
 //@ func BuildIPNet
 //@   panics
+//@   ensures result1 == nil ==> result0 != nil
 
 //@ func ToIPSet
 //@   panics
+//@   ensures result1 == nil ==> result0 != nil
+//@   ensures ip == nil ==> result1 != nil
 
 //@ func ToIPNetSet
 //@   panics
+//@   ensures result1 == nil ==> result0 != nil
 
 //@ func IPSet.SetIP
 //@   requires i != nil
